@@ -1,6 +1,6 @@
 (* The Q instance of the model, as the functions the runner calls. *)
 From Coq Require Import List ZArith QArith Bool.
-From SplipyModel Require Import Model.Num Model.BasisDef Model.BasisEval Model.Knots Model.Tensor Model.Obj Model.Deriv Model.KnotInsert Model.Reparam Model.Affine Model.Tol Model.StateCtx Model.Solve Model.Order Model.Split Model.Periodic Model.WF Model.Ops Model.Identical Model.Factory Model.Interp Model.Section Model.Measure Model.Orient Model.Numbering Gen.CircleNets.
+From SplipyModel Require Import Model.Num Model.BasisDef Model.BasisEval Model.Knots Model.Tensor Model.Obj Model.Deriv Model.KnotInsert Model.Reparam Model.Affine Model.Tol Model.StateCtx Model.Solve Model.Order Model.Split Model.Periodic Model.WF Model.Ops Model.Identical Model.Factory Model.Interp Model.Section Model.Measure Model.Orient Model.Numbering Model.G2 Gen.CircleNets.
 Import ListNotations.
 
 Definition q_basis_evaluate := @basis_evaluate Q NumQ.
@@ -63,4 +63,6 @@ Definition q_basis_integrate := @basis_integrate Q NumQ.
 Definition q_obj_center := @obj_center Q NumQ.
 Definition q_orient_compute := @orient_compute Q NumQ.
 Definition x_number_model := number_model.
+Definition q_g2_encode := @g2_encode Q NumQ.
+Definition q_g2_decode := @g2_decode Q NumQ.
 Definition q_res_witness (e : err) : res unit := Err e.
